@@ -96,7 +96,8 @@ class Harness:
         self.report = Report()
         self.report.contextualize(Submission(files={"answer.py": self.src}))
         self.sandbox = self.report["sandbox"]["sandbox"]
-        self.sandbox.allowed_time = 3
+        self.sandbox.allowed_time = 5
+        self.threaded = bool(file.get("threaded", False))
         style = file.get("tracer", "none")
         if style != "none":
             self.sandbox.tracer_style = style
@@ -135,13 +136,13 @@ class Harness:
         try:
             if op == "run":
                 prog = self.file["top"]
-                C.run(report=r)
+                C.run(report=r, threaded=self.threaded)
             elif op == "call":
                 prog = self.file["fns"][a["i"] - 1]
-                C.call("f%d" % a["i"], report=r)
+                C.call("f%d" % a["i"], report=r, threaded=self.threaded)
             elif op == "evaluate":
                 prog = self.file["fns"][a["i"] - 1]
-                C.evaluate("f%d()" % a["i"], report=r)
+                C.evaluate("f%d()" % a["i"], report=r, threaded=self.threaded)
             elif op == "clear_output":
                 C.clear_output(report=r)
             elif op == "set_input":
